@@ -309,6 +309,13 @@ Appendix :
   #define dfst  lsx_dfst
 #endif
 
+#if defined SOXR_VERIF /* Verification hook (add-only): the point where a transform first dereferences its (possibly shared) tables. */
+  void soxr_verif_table_use(int const * ip, void const * w);
+  #define SOXR_VERIF_TABLE_USE(ip, w) soxr_verif_table_use(ip, w)
+#else
+  #define SOXR_VERIF_TABLE_USE(ip, w) ((void)0)
+#endif
+
 static void bitrv2conj(int n, int *ip, double *a);
 static void bitrv2(int n, int *ip, double *a);
 static void cft1st(int n, double *a, double const *w);
@@ -325,6 +332,7 @@ static void rftfsub(int n, double *a, int nc, double const *c);
 
 void cdft(int n, int isgn, double *a, int *ip, double *w)
 {
+    SOXR_VERIF_TABLE_USE(ip, w);
     if (n > (ip[0] << 2)) {
         makewt(n >> 2, ip, w);
     }
@@ -347,6 +355,7 @@ void rdft(int n, int isgn, double *a, int *ip, double *w)
     int nw, nc;
     double xi;
 
+    SOXR_VERIF_TABLE_USE(ip, w);
     nw = ip[0];
     if (n > (nw << 2)) {
         nw = n >> 2;
@@ -387,6 +396,7 @@ void ddct(int n, int isgn, double *a, int *ip, double *w)
     int j, nw, nc;
     double xr;
 
+    SOXR_VERIF_TABLE_USE(ip, w);
     nw = ip[0];
     if (n > (nw << 2)) {
         nw = n >> 2;
@@ -438,6 +448,7 @@ void ddst(int n, int isgn, double *a, int *ip, double *w)
     int j, nw, nc;
     double xr;
 
+    SOXR_VERIF_TABLE_USE(ip, w);
     nw = ip[0];
     if (n > (nw << 2)) {
         nw = n >> 2;
@@ -489,6 +500,7 @@ void dfct(int n, double *a, double *t, int *ip, double *w)
     int j, k, l, m, mh, nw, nc;
     double xr, xi, yr, yi;
 
+    SOXR_VERIF_TABLE_USE(ip, w);
     nw = ip[0];
     if (n > (nw << 3)) {
         nw = n >> 3;
@@ -579,6 +591,7 @@ void dfst(int n, double *a, double *t, int *ip, double *w)
     int j, k, l, m, mh, nw, nc;
     double xr, xi, yr, yi;
 
+    SOXR_VERIF_TABLE_USE(ip, w);
     nw = ip[0];
     if (n > (nw << 3)) {
         nw = n >> 3;
